@@ -1,21 +1,21 @@
 #!/bin/bash
-# Self-test of the machinery: applies every kept seeded change to /repo in turn and verifies that the check(s) named in
-# its meta.json report a VIOLATION (exit 1). /repo must be clean; it is reset after every seed. Usage: seedsuite.sh [name-glob]
+# Self-test of the machinery: applies every kept seeded change to a SCRATCH worktree of /repo (never to /repo itself) and verifies
+# that the check(s) named in its meta.json report a VIOLATION (exit 1). Usage: seedsuite.sh [name-glob]
 VERIF_ROOT=${VERIF_ROOT:-$(cd "$(dirname "$0")/.." && pwd)}; export VERIF_ROOT
-cd /repo || exit 1
-[ -z "$(git status --porcelain)" ] || { echo "/repo not clean"; exit 1; }
+WT=$(mktemp -d /tmp/seedsuite-wt.XXXXXX)
+git -C /repo worktree add -q --detach $WT HEAD || exit 1
+export REPO_ROOT=$WT
 export VERIF_EVIDENCE_DIR=$(mktemp -d /tmp/seedsuite-ev.XXXXXX)
-trap 'git -C /repo reset -q --hard HEAD; git -C /repo clean -fdq; rm -rf "$VERIF_EVIDENCE_DIR"' EXIT
+trap 'git -C /repo worktree remove --force $WT; rm -rf "$VERIF_EVIDENCE_DIR" $WT' EXIT
 miss=0
 for d in $VERIF_ROOT/seeded/${1:-*}/; do
   name=$(basename $d)
   checks=$(python3 -c "import json;print(' '.join(json.load(open('$d/meta.json')).get('checks',[])))")
-  git apply $d/patch.diff 2>/dev/null || git apply -3 $d/patch.diff 2>/dev/null || { echo "SKIP $name: patch does not apply to the current tree"; git reset -q --hard HEAD; continue; }
+  (cd $WT && git reset -q --hard HEAD && git clean -fdq && (git apply $d/patch.diff 2>/dev/null || git apply -3 $d/patch.diff 2>/dev/null)) || { echo "SKIP $name: patch does not apply to the current tree"; continue; }
   for id in $checks; do
-    out=$(timeout 2400 "$VERIF_ROOT/bin/check" $id quick 2>&1); rc=$?
+    out=$(timeout 3000 "$VERIF_ROOT/bin/check" $id quick 2>&1); rc=$?
     nv=$(echo "$out" | grep -c "^VIOLATION")
-    if [ $rc -eq 1 ] && [ $nv -gt 0 ]; then echo "CAUGHT $name by $id ($nv violation lines)"; else echo "MISSED $name by $id (rc=$rc)"; miss=1; fi
+    if [ $rc -eq 1 ] && [ $nv -gt 0 ]; then echo "CAUGHT $name by $id ($nv violation lines): $(echo "$out" | grep signature | sort -u | head -2 | tr '\n' ' ' | cut -c1-200)"; else echo "MISSED $name by $id (rc=$rc) $(echo "$out" | tail -1 | cut -c1-160)"; miss=1; fi
   done
-  git reset -q --hard HEAD; git clean -fdq
 done
 exit $miss
